@@ -135,5 +135,7 @@ def normalize_ws(s):
     parts = re.split(r'(<pre>.*?</pre>)', out, flags=re.S)
     for i in range(0, len(parts), 2):
         parts[i] = re.sub(r'[ \t\n]+', ' ', parts[i])
+        # titles and image descriptions are wrapped like text (the renderer's documented behaviour)
+        parts[i] = re.sub(r' (title|alt)="([^"]*)"', lambda m: ' %s="%s"' % (m.group(1), re.sub(r'\s+', ' ', m.group(2))), parts[i])
         parts[i] = re.sub(r' ?(</?(?:p|li|h[1-6]|blockquote|ul|ol|table|thead|tbody|tr|th|td|hr|br)\b[^>]*>) ?', r'\1', parts[i])
     return ''.join(parts)
